@@ -210,8 +210,23 @@ func (c *Client) run() {
 	switch c.sp.Transport {
 	case "polling":
 		c.lat()
-		r := c.w.serve(c.w.H, c.name, ReqSpec{Method: "GET", Path: c.path(), Query: c.query("polling"), Hdr: c.hdr()})
+		req, r := c.w.newRequest(c.name, ReqSpec{Method: "GET", Path: c.path(), Query: c.query("polling"), Hdr: c.hdr()})
+		if c.sp.AbortHS {
+			// the connection is lost while the handshake is being served: where exactly is the scheduler's choice
+			c.spawn("abort-hs", func() {
+				if !r.Returned {
+					c.rec("c-handshake-aborted", "", 0)
+					r.abort()
+				}
+			})
+		}
+		c.w.serveReq(c.w.H, req, r)
 		c.lat()
+		if r.Aborted {
+			c.rec("c-handshake", "", int64(r.Status))
+			c.fail("handshake aborted by client")
+			return
+		}
 		c.rec("c-handshake", "", int64(r.Status))
 		if r.Status != 200 {
 			c.fail("handshake status " + strconv.Itoa(r.Status))
